@@ -155,6 +155,8 @@ class CircuitExec {
     bool paramsRejected = false;   // parameter set does not pass check()
     bool agentMutated = false;     // agent did more than observe/throw
     bool resized = false;
+    bool realResize = false;       // agent changed cell widths in a global-placement callback
+    int paramsPoisonedAt = -1;     // agent wrote an out-of-range value into the caller's parameter object at this callback
     bool liveness = false;
     Snapshot pre, post;
     SchedStats sched;
@@ -203,7 +205,11 @@ class CircuitExec {
   void runC08();
 };
 
-// Budget of callbacks of one stage, from its parameters (bounded liveness).
+// Budget of callbacks of one stage, from its parameters (bounded liveness).  The count
+// below is what the library does today; the property only says that a call ends, so the
+// verdict is raised at eight times that count plus 64 (a library that reports progress more
+// often keeps the property; one that never stops calling back does not).
+long long callbackBudgetLimit(long long budget) { return 8 * budget + 64; }
 long long callbackBudget(int stage, const ColoquinteParameters &p) {
   if (stage == 0) {
     long long init = p.global.nbInitialSteps, mx = p.global.maxNbSteps,
@@ -267,6 +273,7 @@ CircuitExec::StageRun CircuitExec::runStage(Circuit &c, int opIndex, const Op &o
     mk->dom06 = (dom.c06 && !r.paramsRejected && moderate) ? 1 : 0;
   }
   float blendF = (float)params.global.exportBlending;
+  ColoquinteParameters callParams = params;  // the object the client passes to the call (the agent may write to it)
 
   tr_.ev(tag + " begin " + opKindName(op.kind) + " effort=" + std::to_string(ps.effort) +
          " seed=" + std::to_string(ps.seed) + " cb=" + std::to_string(op.cb) +
@@ -279,9 +286,22 @@ CircuitExec::StageRun CircuitExec::runStage(Circuit &c, int opIndex, const Op &o
   long long prevHpwl = 0, prevFrozen = 0;
   bool prevHpwlValid = false;
   bool polarisedChangedOrient = false;
-  bool observeOnly = true;
-  for (auto &a : op.actions)
+  // A callback may legally change cell sizes during global placement ("real resize", CB_RESIZE
+  // with mode 1: movable cells wider, mode 2: every cell wider).  The frame reference follows what
+  // the agent itself set; everything else must stay as it was.
+  auto realResize = [&](const CbAction &a) { return a.kind == CB_RESIZE && stage == 0 && ((a.arg >> 1) % 3) != 0; };
+  bool observeOnly = true, onlyMovableResizes = true;
+  for (auto &a : op.actions) {
+    if (realResize(a)) {
+      if (((a.arg >> 1) % 3) != 1) onlyMovableResizes = false;
+      continue;
+    }
+    onlyMovableResizes = false;
     if (a.kind != CB_THROW_RT && a.kind != CB_THROW_BA && a.kind != CB_THROW_INT && a.kind != CB_NEST) observeOnly = false;
+  }
+  Snapshot frameRef;  // r.pre with the sizes the agent has set since
+  bool frameRefInit = false;
+  std::vector<double> lbCx, lbCy, ubCx, ubCy;  // centres of the last exposed LB / UB placements
 
   auto agent = [&](PlacementStep step) {
     allocLibraryMode(false);
@@ -304,9 +324,9 @@ CircuitExec::StageRun CircuitExec::runStage(Circuit &c, int opIndex, const Op &o
       });
       (void)q;
     }
-    if (r.callbacks > budget + 2) {
+    if (r.callbacks > callbackBudgetLimit(budget)) {
       r.liveness = true;
-      verdict("C07", "liveness-budget", tag + ": more than " + std::to_string(budget) +
+      verdict("C07", "liveness-budget", tag + ": more than " + std::to_string(callbackBudgetLimit(budget)) +
               " callbacks for this parameter set (bounded liveness)", opIndex);
       throw LivenessAbort();
     }
@@ -315,9 +335,13 @@ CircuitExec::StageRun CircuitExec::runStage(Circuit &c, int opIndex, const Op &o
     bool stepMatchesStage = (stage == 0) ? (step != PlacementStep::Detailed) : (step == PlacementStep::Detailed);
     if (!stepMatchesStage)
       verdict("C02", "callback-step-kind", tag + ": unexpected callback step " + std::string(stepName(step)), opIndex);
+    if (!frameRefInit) {
+      frameRef = r.pre;
+      frameRefInit = true;
+    }
     if (!r.agentMutated) {
       evald("C03");
-      std::string fd = frameDiff(r.pre, s, stage == 0 ? 0 : 1);
+      std::string fd = frameDiff(frameRef, s, stage == 0 ? 0 : 1);
       if (!fd.empty()) verdict("C03", "frame-at-callback", tag + " cb" + std::to_string(k) + ": " + fd, opIndex);
     }
     {
@@ -355,14 +379,25 @@ CircuitExec::StageRun CircuitExec::runStage(Circuit &c, int opIndex, const Op &o
           }
         }
       }
-      if (step == PlacementStep::LowerBound) {
-        haveLB = true;
-        lbX = s.x;
-        lbY = s.y;
-      } else if (step == PlacementStep::UpperBound) {
-        haveUB = true;
-        ubX = s.x;
-        ubY = s.y;
+      if (step == PlacementStep::LowerBound || step == PlacementStep::UpperBound) {
+        std::vector<double> cx(s.n()), cy(s.n());
+        for (int i = 0; i < s.n(); ++i) {
+          cx[i] = (double)s.x[i] + 0.5 * s.pw(i);
+          cy[i] = (double)s.y[i] + 0.5 * s.ph(i);
+        }
+        if (step == PlacementStep::LowerBound) {
+          haveLB = true;
+          lbX = s.x;
+          lbY = s.y;
+          lbCx = cx;
+          lbCy = cy;
+        } else {
+          haveUB = true;
+          ubX = s.x;
+          ubY = s.y;
+          ubCx = cx;
+          ubCy = cy;
+        }
       }
     } else {
       if (dom.c01 && !r.agentMutated) {
@@ -442,11 +477,34 @@ CircuitExec::StageRun CircuitExec::runStage(Circuit &c, int opIndex, const Op &o
           badCall(c, opIndex, (int)(a.arg % 100), a.arg / 100, true);
           break;
         case CB_RESIZE: {
+          if (realResize(a)) {
+            // legal during global placement: the library has to pick the new sizes up
+            bool all = ((a.arg >> 1) % 3) == 2;
+            if (all) r.resized = true;  // obstructions change: the C06 oracles of this op are skipped
+            r.realResize = true;
+            stat(all ? "fault_real_resize_all_cells" : "fault_real_resize_movable_cells");
+            std::vector<int> w = c.cellWidth();
+            for (int i = 0; i < (int)w.size(); ++i)
+              if (w[i] > 0 && w[i] < (1 << 20) && (all || !c.isFixed(i))) w[i] += 2 + (int)(((a.arg >> 1) / 3) % 3) * 2;
+            c.setCellWidth(w);
+            if (a.arg % 2) c.setCellHeight(c.cellHeight());
+            frameRef.w = w;
+            break;
+          }
           r.agentMutated = true;
           r.resized = true;
           stat("fault_resize_in_callback");
           c.setCellWidth(c.cellWidth());
           if (a.arg % 2) c.setCellHeight(c.cellHeight());
+          break;
+        }
+        case CB_BADPARAMS: {
+          static const char *keys[] = {"d.nbPasses", "g.maxNbSteps", "rl.binSize", "d.localSearchNbNeighbours", "l.costModel", "pe.updateFactor"};
+          static const double vals[] = {-1, -1, 0.5, -1, 2, 1.0};
+          int j = (int)(a.arg % 6);
+          if (r.paramsPoisonedAt < 0) r.paramsPoisonedAt = k;
+          stat("fault_params_poisoned_in_callback");
+          applyOverride(callParams, keys[j], vals[j]);
           break;
         }
         case CB_NEST: {
@@ -513,9 +571,9 @@ CircuitExec::StageRun CircuitExec::runStage(Circuit &c, int opIndex, const Op &o
       else if (stage == 1) c.legalize(ps.effort);
       else c.placeDetailed(ps.effort);
     } else {
-      if (stage == 0) c.placeGlobal(params, cb);
-      else if (stage == 1) c.legalize(params, cb);
-      else c.placeDetailed(params, cb);
+      if (stage == 0) c.placeGlobal(callParams, cb);
+      else if (stage == 1) c.legalize(callParams, cb);
+      else c.placeDetailed(callParams, cb);
     }
   });
   allocLibraryMode(false);
@@ -575,7 +633,7 @@ CircuitExec::StageRun CircuitExec::runStage(Circuit &c, int opIndex, const Op &o
   if (!r.agentMutated && observeOnly) {
     evald("C03");
     if (!r.out.returned()) stat("probe_frame_checked_after_throw");
-    std::string fd = frameDiff(r.pre, r.post, stage == 0 ? 0 : 1);
+    std::string fd = frameDiff(frameRefInit ? frameRef : r.pre, r.post, stage == 0 ? 0 : 1);
     if (!fd.empty()) verdict("C03", r.out.returned() ? "frame-after-return" : "frame-after-throw", tag + " (" + r.out.str() + "): " + fd, opIndex);
   }
   // C09a at the final state
@@ -738,23 +796,26 @@ CircuitExec::StageRun CircuitExec::runStage(Circuit &c, int opIndex, const Op &o
             break;
           }
         }
-        if (haveLB && haveUB && observeOnly && op.actions.empty() && throwAt < 0) {
+        if (haveLB && haveUB && observeOnly && (op.actions.empty() || onlyMovableResizes) && throwAt < 0) {
           stat("probe_blend_checked");
+          if (r.realResize) stat("probe_blend_checked_after_real_resize");
           double b = blendF;
           double k1 = std::fabs(1.0 - b) + std::fabs(b);
           for (int i = 0; i < r.post.n(); ++i) {
             if (r.post.fixed[i]) continue;
             for (int axis = 0; axis < 2; ++axis) {
-              double L = axis ? lbY[i] : lbX[i], U = axis ? ubY[i] : ubX[i], R = axis ? r.post.y[i] : r.post.x[i];
-              double expct = (1.0 - b) * L + b * U;
+              // the blend is one of cell centres; the exported corner uses the size the cell has now
+              double half = 0.5 * (axis ? r.post.ph(i) : r.post.pw(i));
+              double L = axis ? lbCy[i] : lbCx[i], U = axis ? ubCy[i] : ubCx[i], R = axis ? r.post.y[i] : r.post.x[i];
+              double expct = (1.0 - b) * L + b * U - half;
               double mag = std::max({1.0, std::fabs(L), std::fabs(U), (double)std::max(r.post.pw(i), r.post.ph(i))});
               double tol = 0.5 + 0.5 * k1 + 16.0 * 1.1920929e-7 * mag * (k1 + 1.0);
               bool exact = (b == 0.0 || b == 1.0);
               bool bad = exact ? (R != expct) : (std::fabs(R - expct) > tol);
               if (bad) {
                 std::ostringstream os;
-                os << tag << ": returned " << (axis ? "y" : "x") << " of cell " << i << " is " << R << ", last LB " << L
-                   << ", last UB " << U << ", exportBlending " << b << " => expected " << expct << (exact ? " exactly" : " +- ") ;
+                os << tag << ": returned " << (axis ? "y" : "x") << " of cell " << i << " is " << R << ", centre in the last LB " << L
+                   << ", in the last UB " << U << ", half size now " << half << ", exportBlending " << b << " => expected " << expct << (exact ? " exactly" : " +- ") ;
                 if (!exact) os << tol;
                 verdict("C06", "export-blend", os.str(), opIndex);
                 i = r.post.n();
@@ -1088,6 +1149,34 @@ void CircuitExec::doPerturb(Circuit &c, const Op &op) {
   Rectangle area = c.computePlacementArea();
   std::vector<int> x = c.cellX(), y = c.cellY();
   int px = (int)rng.range(area.minX, std::max(area.minX, area.maxX)), py = (int)rng.range(area.minY, std::max(area.minY, area.maxY));
+  if (mode % 7 >= 5) {
+    // the client moves FIXED cells between two placement calls (mode 5: small offsets, mode 6: one
+    // of them anywhere in the area): free space computed by an earlier call is no longer valid
+    stat("client_moved_fixed_cells");
+    int pick = -1, nf = 0;
+    for (int i = 0; i < c.nbCells(); ++i)
+      if (c.isFixed(i) && rng.below(++nf) == 0) pick = i;
+    for (int i = 0; i < c.nbCells(); ++i) {
+      if (!c.isFixed(i)) continue;
+      if (mode % 7 == 5) {
+        x[i] += (int)rng.range(-4 * mag, 4 * mag);
+        y[i] += (int)rng.range(-2 * mag, 2 * mag);
+      } else if (i == pick) {
+        x[i] = px;
+        y[i] = py;
+      }
+    }
+    if (rng.chance(0.5)) {
+      c.setCellX(x);
+      c.setCellY(y);
+    } else {
+      std::vector<CellOrientation> o = c.cellOrientation();
+      PlacementSolution sol;
+      for (int i = 0; i < c.nbCells(); ++i) sol.emplace_back(x[i], y[i], o[i]);
+      c.setSolution(sol);
+    }
+    return;
+  }
   for (int i = 0; i < c.nbCells(); ++i) {
     if (c.isFixed(i)) continue;
     switch (mode % 5) {
@@ -1225,7 +1314,41 @@ void CircuitExec::run() {
               verdict("C10", "refused-setter-affected-the-call", "refused structural modifications inside callbacks changed the result of the call: " + why, i);
           }
         }
-        protocolAfter(*c, i, r.out.returned() ? "return" : "exception");
+        if (r.paramsPoisonedAt >= 0 && r.out.returned() && !r.paramsRejected) {
+          // C19: values the parameter check rejects are never used for placement work.  A
+          // parameter object the client spoils from inside a callback is either refused (the
+          // call throws) or was never read again: the call then gives exactly what it gives
+          // with a purely observing callback.
+          bool onlyPoison = true;
+          for (auto &a : op.actions)
+            if (a.kind != CB_BADPARAMS) onlyPoison = false;
+          if (onlyPoison && op.allocFail < 0) {
+            evald("C19");
+            Circuit shadow = buildCircuit(specFromSnapshot(r.pre));
+            Op dop = op;
+            dop.actions.clear();
+            StageRun d = runStage(shadow, i, dop, -1, 0, true, "op" + std::to_string(i) + ".unspoiled");
+            std::string why;
+            if (!d.out.returned())
+              verdict("C19", "invalid-params-from-callback-used", "op" + std::to_string(i) + ": with the parameter object spoiled at callback " + std::to_string(r.paramsPoisonedAt) + " the call returned, with an observing callback it " + d.out.str(), i);
+            else if (!samePlacement(d.post, r.post, &why))
+              verdict("C19", "invalid-params-from-callback-used", "op" + std::to_string(i) + ": the parameter object was spoiled at callback " + std::to_string(r.paramsPoisonedAt) + " (values check() rejects); the call returned and placed differently than with an observing callback: " + why, i);
+          }
+        }
+        {
+          // The probing setters re-install the circuit's own values; a library that keeps derived
+          // data per object would drop it there, which would hide what an earlier call left behind
+          // from the following ops.  Before the last op of a plan the probe therefore mostly runs on
+          // a copy (the busy flag is part of the copied state), so that histories stay undisturbed.
+          bool onCopy = (i + 1 < (int)plan_.ops.size()) && (i % 3 != 2);
+          if (onCopy) {
+            Circuit probe = *c;
+            stat("protocol_probes_on_copy");
+            protocolAfter(probe, i, r.out.returned() ? "return" : "exception");
+          } else {
+            protocolAfter(*c, i, r.out.returned() ? "return" : "exception");
+          }
+        }
         if (!r.out.returned() && !r.agentMutated && (i % 2 == 0)) {
           // ... followed by a further placement call (on a copy, so that the history continues unchanged)
           Circuit cc = *c;
